@@ -99,6 +99,7 @@ def c_op(o):
         ro = "None" if opt is None else "(Some {| ro_match := %s; ro_invoke := %s |})" % (
             c_opt(opt["match"]), c_opt(opt["invoke"]))
         return f"COp (ARegister {o[1]} {ro})"
+    if n == "failsend": return f"CFail {EXN[o[1]]} ({c_op(o[2])})"
     if n == "react": return f"CReact {o[1]} ({c_op(o[2])})"
     if n == "inline":
         r = c_op(o[2])
@@ -132,7 +133,8 @@ class Unrenderable(Exception):
 
 
 EXN = {"ProtocolError": "XProtocolError", "TransportLost": "XTransportLost", "TypeError": "XTypeError",
-       "AttributeError": "XAttributeError", "Exception": "XException", "NoObject": "XNoObject", "KeyError": "XKeyError"}
+       "AttributeError": "XAttributeError", "Exception": "XException", "NoObject": "XNoObject", "KeyError": "XKeyError",
+       "SerializationError": "XSerializationError", "PayloadExceededError": "XPayloadExceeded"}
 
 
 def c_exn(name):
@@ -448,6 +450,38 @@ def gen_inline_op(rng, sh):
     return ["inline", api, reply]
 
 
+SEND_FAILURES = ("SerializationError", "PayloadExceededError", "TransportLost")
+
+
+def gen_failsend_ops(rng, sh):
+    """an API call (each of the six request kinds) whose request message the transport refuses in one of its three ways,
+    usually followed by a router message bearing the id that call consumed (it must NOT be matched to anything)"""
+    kind = rng.choice(REQ_KINDS)
+    if kind == "unsubscribe" and not sh.sub_futs: kind = "subscribe"
+    if kind == "unregister" and not sh.reg_futs: kind = "register"
+    if kind == "call":
+        a, kw = gen_api_payload(rng)
+        api = ["call", rng.randrange(1, 6), a, kw, rng.choice([None, {"timeout": None, "progress": True, "details": False}])]
+    elif kind == "publish":
+        a, kw = gen_api_payload(rng)
+        api = ["publish", rng.randrange(1, 6), a, kw, rng.choice([{"ack": True, "excl": None}, None])]
+    elif kind == "subscribe": api = ["subscribe", rng.randrange(1, 6), None]
+    elif kind == "register": api = ["register", rng.randrange(1, 6), None]
+    elif kind == "unsubscribe": api = ["unsubscribe", rng.choice(sh.sub_futs)]
+    else: api = ["unregister", rng.choice(sh.reg_futs)]
+    sh.next_id += 1          # the id is consumed before send() (if the call gets that far)
+    rid = sh.next_id
+    ops = [["failsend", rng.choice(SEND_FAILURES), api]]
+    r = rng.random()
+    if r < 0.45:
+        ops.append(success_reply(rng, sh, kind, rid))
+    elif r < 0.75:
+        ops.append(["error", KIND_CODE[kind], rid, rng.randrange(1, 5), None, None])
+    elif r < 0.85 and kind == "call":
+        ops.append(["result", rid, True, [1], None])
+    return ops
+
+
 def join_prefix(fw, sid=1234):
     return [["open"], ["turn"], ["welcome", sid], ["turn"], ["turn"]] if fw == "aio" else [["open"], ["welcome", sid]]
 
@@ -461,6 +495,8 @@ def gen_c04_history(rng, fw, nops):
             ops.append(["turn"])
         elif r < 0.12 + (0.22 if fw == "aio" else 0):
             ops.append(gen_inline_op(rng, sh))
+        elif r < 0.20 + (0.22 if fw == "aio" else 0):
+            ops += gen_failsend_ops(rng, sh)
         elif r < 0.60 or not sh.next_id:
             ops.append(gen_api_op(rng, sh))
         else:
